@@ -407,3 +407,30 @@ func (lex *Lexer) skipFrame() {
 func (lex *Lexer) resetStack() {
 	lex.stack = lex.stack[:0]
 }
+
+// unwinds what is left of the stack when there is less than n, then restores slot top: a stale slot
+// (nothing pending wrote it) when the stack was empty
+func (lex *Lexer) ret(n int) {
+	if n > lex.top {
+		n = lex.top
+	}
+	lex.top -= n
+	if lex.top < len(lex.stack) {
+		lex.cs = lex.stack[lex.top]
+	}
+	lex.p++
+}
+
+// clamps instead of returning early
+func (lex *Lexer) retClamp(n int) {
+	lex.top = lex.top - n
+	if lex.top < 0 {
+		lex.top = 0
+	}
+	if lex.top < len(lex.stack) {
+		lex.cs = lex.stack[lex.top]
+	}
+	lex.p++
+}
+
+func (lex *Lexer) retOne() { lex.ret(1); lex.retClamp(1) }
